@@ -186,6 +186,8 @@ CONTROLS = [
         '    let (s, b) = many0(alt((\n        is_not("*"),\n        terminated(tag("*"), peek(not(tag("/")))),\n    )))(s)?;\n    let (s, c) = tag("*/")(s)?;\n    let mut a = a;\n    for b in b {\n        a = concat(a, b).unwrap();\n    }\n    let a = concat(a, c).unwrap();',
         '    let len = match s.fragment().find("*/") {\n        Some(x) => x + 2,\n        None => s.fragment().len(),\n    };\n    let (s, b) = take(len)(s)?;\n    let a = concat(a, b).unwrap();', 1)]),
     ('x3-merge-key-not-shifted', 'X3', 'syn', ':merge', [(PPF, '            range.offset(base);\n            origin.range.offset(base);', '            origin.range.offset(base);', 1)]),
+    ('x12-search-continues-after-hit', 'X12', 'syn', 'search-first-hit', [(PPF, '                            path = new_path;\n                            break;', '                            path = new_path;', 1)]),
+    ('x12-search-ignores-literal-path', 'X12', 'syn', 'search-precondition', [(PPF, 'if path.is_relative() && !path.exists() {', 'if path.is_relative() {', 1)]),
     ('s1-version-stack-not-reset', 'S1', 'mir', 'not-reset:CURRENT_VERSION', [(PARSER + 'lib.rs', '    clear_directive();\n    clear_version();\n}', '    clear_directive();\n}', 1)]),
     ('s2-grammar-function-exported', 'S2', 'mir', 'source_text', [(PARSER + 'source_text/system_verilog_source_text.rs', 'pub(crate) fn source_text(s: Span)', 'pub fn source_text(s: Span)', 1)]),
     ('s3-scope-leak-on-error-path', 'S3', 'mir', 'text_macro_usage:unbalanced', [(CD,
